@@ -16,7 +16,13 @@ Families
                 BlackScholes, WhalleyWilmott, Naked} in both evaluation modes (vectorised;
                 stepwise, forced by an ignored prev_hedge input): hedge[:, :, t] constant
                 below every depth-t node; hedge[..., -1] == hedge[..., -2] on every leaf;
-                no cross-path coupling.
+                no cross-path coupling.  Every configuration with autograd OFF (the mode of price())
+                and, for trainable models (and a sample of the others), with autograd ON and
+                parameters requiring grad (the mode of fit()/compute_loss()); with a positive
+                transaction cost, compute_pl / compute_portfolio / compute_loss (scripted simulate)
+                must equal pl() of the position HELD over the last step (no cost at maturity).
+                Models that return a view of their input (Identity, a slicing module) on
+                single-feature input lists are included.
 """
 from __future__ import annotations
 
@@ -537,8 +543,8 @@ def run(ctx):
              "feature_tree: every feature x derivative kind x call/put x underlier x listing: get(None)[:, t] and "
              "get(t) constant on the leaves below every depth-t node, equal to the documented function of the "
              "prefix, independent of the other paths in the batch. hedge_tree: every model x evaluation mode x "
-             "world: hedge[:, :, t] constant below every depth-t node, last column == previous column on every "
-             "leaf. Non-trivial = nodes below which the quantity takes a different value later on some leaf "
+             "world x autograd {off, on}: hedge[:, :, t] constant below every depth-t node, last column == previous "
+             "column on every leaf, compute_pl/portfolio/loss == P&L of the held position (cost > 0). Non-trivial = nodes below which the quantity takes a different value later on some leaf "
              "(peeking would be observable) + leaves whose position moves before maturity")
     ctx.assume("models that couple paths (batch normalisation) are outside the property and are not generated")
     ctx.assume("user-supplied pricers of listed derivatives are represented by the documentation's Black-Scholes "
